@@ -5,7 +5,7 @@
 From Coq Require Import String.
 From Coq Require Import List Bool Arith NArith ZArith.
 Import ListNotations.
-Require Import PyLib Str IpModel TextModel G_fn_ip2 RefJun RefIo RefIpLine.
+Require Import PyLib Str IpModel TextModel G_fn_ip2 RefJun RefIoBase RefIpLine.
 
 (* _anonymize_match translated from the source is the model's ip_match: text that does not parse as an address, masks and preserved networks
    are returned as they were matched; anything else is replaced by the printed image (pre-image when undoing) and the cache is updated *)
